@@ -58,6 +58,9 @@ pub struct Case {
     /// makeCredential: length of the user handle (0 = the fixed 12-byte one)
     #[serde(default)]
     pub user_len: u8,
+    /// makeCredential: user name, display name and RP name of about a hundred bytes (with multi-byte characters)
+    #[serde(default)]
+    pub long_labels: bool,
 }
 
 fn rp_name(c: &Case, i: u8) -> String {
@@ -103,7 +106,17 @@ fn list(c: &Case) -> Option<Vec<passkey_types::webauthn::PublicKeyCredentialDesc
     let n = c.contents.len();
     let rp = c.rp % 2;
     let own = |n: usize| -> Vec<usize> { (0..n).filter(|k| c.contents[*k].0 % 2 == rp).collect() };
-    match c.list % 7 {
+    match c.list % 8 {
+        // every held credential of the RP, last one first, the first of them named twice
+        7 => {
+            let mut o = own(n);
+            o.reverse();
+            let mut l: Vec<_> = o.iter().map(|k| cer::descriptor(&cred_id(*k))).collect();
+            if let Some(k) = o.first() {
+                l.push(cer::descriptor(&cred_id(*k)));
+            }
+            Some(l)
+        }
         5 => {
             let o = own(n);
             Some(vec![cer::descriptor_ty(&o.get(c.list_k as usize % o.len().max(1)).map(|k| cred_id(*k)).unwrap_or(b"nothing-held".to_vec()), false), cer::descriptor(b"well-typed-miss")])
@@ -149,8 +162,8 @@ fn salts_ga(c: &Case) -> AuthenticatorPrfInputs {
 fn mc_request(c: &Case) -> make_credential::Request {
     make_credential::Request {
         client_data_hash: vec![1u8; 32].into(),
-        rp: make_credential::PublicKeyCredentialRpEntity { id: rp_name(c, c.rp), name: Some("rp".into()) },
-        user: passkey_types::webauthn::PublicKeyCredentialUserEntity { id: if c.user_len == 0 { b"c18-new-user".to_vec() } else { vec![0x75; [1usize, 63, 64, 65, 66, 128, 200, 255][c.user_len as usize % 8]] }.into(), display_name: "d".into(), name: "n".into() },
+        rp: make_credential::PublicKeyCredentialRpEntity { id: rp_name(c, c.rp), name: Some(if c.long_labels { format!("relying party {}", "näme ".repeat(20)) } else { "rp".into() }) },
+        user: passkey_types::webauthn::PublicKeyCredentialUserEntity { id: if c.user_len == 0 { b"c18-new-user".to_vec() } else { vec![0x75; [1usize, 63, 64, 65, 66, 128, 200, 255][c.user_len as usize % 8]] }.into(), display_name: if c.long_labels { format!("displäy {}", "näme ".repeat(15)) } else { "d".into() }, name: if c.long_labels { format!("{}@example.com", "ü".repeat(40)) } else { "n".into() } },
         pub_key_cred_params: cer::params(if c.algs_supported { &[-257, -7] } else { &[-257] }),
         exclude_list: list(c),
         extensions: (c.prf > 0 || c.hmac_in % 3 > 0).then(|| make_credential::ExtensionInputs { hmac_secret: [None, Some(false), Some(true)][c.hmac_in as usize % 3], hmac_secret_mc: None, prf: (c.prf > 0).then(|| salts(c.prf)) }),
@@ -317,6 +330,20 @@ pub fn check(c: &Case) -> Result<&'static str, String> {
     if la.iter().map(|c| c.kind()).collect::<Vec<_>>() != lb.iter().map(|c| c.kind()).collect::<Vec<_>>() {
         return Err("the sequence of store calls differs between the trait and the direct call".into());
     }
+    // what the store is told (ids of new credentials are random and left out)
+    let told = |l: &[crate::rt::StoreCall]| -> Vec<String> {
+        l.iter()
+            .map(|c| match c {
+                crate::rt::StoreCall::Find { ids, rp_id, .. } => format!("find {ids:?} {rp_id}"),
+                crate::rt::StoreCall::Save { cred_rp, rp_arg, user_id, rk, up, uv, labels, .. } => format!("save {cred_rp} {rp_arg} {user_id:?} {rk} {up} {uv} {labels:?}"),
+                crate::rt::StoreCall::Update { cred_id, counter, .. } => format!("update {cred_id:?} {counter:?}"),
+                crate::rt::StoreCall::Info => "info".into(),
+            })
+            .collect()
+    };
+    if told(&la) != told(&lb) {
+        return Err(format!("the store is told different things through the trait than through the direct call: {:?} vs {:?}", told(&lb), told(&la)).chars().take(700).collect());
+    }
     Ok(class)
 }
 
@@ -327,9 +354,9 @@ fn strategy() -> impl Strategy<Value = Case> {
         (prop_oneof![1 => Just(0u8), 4 => Just(1u8), 5 => Just(2u8)], prop_oneof![Just(HmacCfg::None), Just(HmacCfg::UvOnly), Just(HmacCfg::UvOnlyMc), Just(HmacCfg::WithoutUv), Just(HmacCfg::WithoutUvMc)], any::<bool>(), prop_oneof![3 => Just(Disc::Full), 1 => Just(Disc::OnlyNonDiscoverable), 2 => Just(Disc::ForcedDiscoverable)]),
         proptest::collection::vec((0u8..2, prop_oneof![Just(None), Just(Some(0u32)), Just(Some(77)), Just(Some(u32::MAX))], any::<bool>(), 0u8..3), 0..5),
         script,
-        (0u8..2, proptest::bool::weighted(0.2), proptest::bool::weighted(0.85), any::<bool>(), proptest::bool::weighted(0.85), proptest::bool::weighted(0.15), 0u8..7, any::<u8>(), 0u8..3),
+        (0u8..2, proptest::bool::weighted(0.2), proptest::bool::weighted(0.85), any::<bool>(), proptest::bool::weighted(0.85), proptest::bool::weighted(0.15), 0u8..8, any::<u8>(), 0u8..3),
     )
-        .prop_map(|((op, hmac, counter_cfg, disc), contents, script, (rp, rk, up, uv, algs_supported, pin_auth, list, list_k, prf))| Case { op, hmac, counter_cfg, disc, contents, script, rp, rk, up, uv, algs_supported, pin_auth, list, list_k, prf, rp0: None, faults: vec![], hmac_in: 0, transports: 0, prf_by_cred: 0, user_len: 0 })
+        .prop_map(|((op, hmac, counter_cfg, disc), contents, script, (rp, rk, up, uv, algs_supported, pin_auth, list, list_k, prf))| Case { op, hmac, counter_cfg, disc, contents, script, rp, rk, up, uv, algs_supported, pin_auth, list, list_k, prf, rp0: None, faults: vec![], hmac_in: 0, transports: 0, prf_by_cred: 0, user_len: 0, long_labels: false })
         .prop_flat_map(|c| {
             // RP IDs of any shape and length (the API takes any string), and store calls failing with any status byte
             let ch = prop_oneof![6 => "[a-z0-9.-]", 2 => "[\u{80}-\u{7ff}]", 1 => "[\u{800}-\u{ffff}]", 1 => "[\u{10000}-\u{10ffff}]"];
@@ -342,6 +369,7 @@ fn strategy() -> impl Strategy<Value = Case> {
                 c.transports = transports;
                 c.prf_by_cred = prf_by_cred;
                 c.user_len = user_len;
+                c.long_labels = (user_len + prf_by_cred) % 3 == 1;
                 c
             })
         })
@@ -400,6 +428,7 @@ fn minimise(case: &Case) -> Case {
         Box::new(|c| Case { transports: 0, ..c.clone() }),
         Box::new(|c| Case { prf_by_cred: 0, ..c.clone() }),
         Box::new(|c| Case { user_len: 0, ..c.clone() }),
+        Box::new(|c| Case { long_labels: false, ..c.clone() }),
         Box::new(|c| Case { contents: vec![], ..c.clone() }),
         Box::new(|c| Case { contents: c.contents.iter().take(1).cloned().collect(), ..c.clone() }),
         Box::new(|c| Case { prf: 0, ..c.clone() }),
@@ -422,7 +451,7 @@ fn minimise(case: &Case) -> Case {
 }
 
 pub fn run(ctx: &mut Ctx) {
-    ctx.rule = "requests for getInfo / makeCredential / getAssertion (valid and failing: unsupported algorithms, rk on a non-discoverable store, pin-auth, up=false, denied or failing user validation, allow/exclude lists that are absent/empty/miss/hit/foreign, PRF requests, an explicit hmac-secret input of false / true with or without a PRF input, per-credential PRF inputs keyed by a held / an unknown id with and without an allow list, user handles of 1-255 bytes) on authenticators configured with the default / an empty / other transport lists, with generated store contents (0-4 credentials over two RPs, counters incl. max, with/without user handle and PRF secrets), store capability, hmac-secret configuration and user-validation behaviour, RP IDs that are arbitrary text of 0-70 characters (ASCII and 2/3/4-byte characters), and store calls that fail with any status byte (both sides armed alike); two authenticators are built from the same description, one is driven through <Authenticator as Ctap2Api>, the other through the direct methods, each case in an isolated worker with an 8 MiB stack and CPU watchdog. Non-trivial = makeCredential / getAssertion pairs; distinct by case.".into();
+    ctx.rule = "requests for getInfo / makeCredential / getAssertion (valid and failing: unsupported algorithms, rk on a non-discoverable store, pin-auth, up=false, denied or failing user validation, allow/exclude lists that are absent/empty/miss/hit/foreign, PRF requests, an explicit hmac-secret input of false / true with or without a PRF input, per-credential PRF inputs keyed by a held / an unknown id with and without an allow list, user handles of 1-255 bytes, user / RP labels of about a hundred bytes, allow lists naming every held credential in reverse order with a repeat); what the store is told in every call is compared as well on authenticators configured with the default / an empty / other transport lists, with generated store contents (0-4 credentials over two RPs, counters incl. max, with/without user handle and PRF secrets), store capability, hmac-secret configuration and user-validation behaviour, RP IDs that are arbitrary text of 0-70 characters (ASCII and 2/3/4-byte characters), and store calls that fail with any status byte (both sides armed alike); two authenticators are built from the same description, one is driven through <Authenticator as Ctap2Api>, the other through the direct methods, each case in an isolated worker with an 8 MiB stack and CPU watchdog. Non-trivial = makeCredential / getAssertion pairs; distinct by case.".into();
     ctx.assumptions = vec![
         "results are compared by status byte (errors), by authenticator data / selected credential / user entity / extension outputs and by signature validity under the stored key (successes; new keys and ids are random so registrations are compared by shape), and by the abstract store state, the user-validation call log and the sequence of store calls".into(),
         "termination: a worker that dies or exceeds 10 s of CPU is attributed to the case it had started".into(),
